@@ -182,7 +182,9 @@ def is_linear(cfg):
 
 
 def has_probs(cfg):
-    return cfg["np"].get("probs") is not None
+    """an empty-neighbourhood distribution is configured: the library offers no way to resize it, so generators keep the
+    arm set fixed - unless the configuration explicitly allows arm changes anyway (C04 bystander bandits)"""
+    return cfg["np"].get("probs") is not None and not cfg.get("arm_changes_despite_probs")
 
 
 def reward_kind(cfg):
